@@ -262,6 +262,29 @@ class C02(core.Check):
             raise RuntimeError("could not produce base files")
         self.count("base_files", len(bases))
         out = []
+        # checksums with 0x00 bytes: a chunk body substituted by another one whose chunk AND data checksums agree with the
+        # stored ones up to (and including) a leading NUL - comparisons that stop at a NUL accept it
+        for (ht, cht) in ((1, 1), (2, 3)) if not self.quick else ((1, 1),):
+            p1 = gen.content("text", 90, 1)
+            found = []
+            i = 0
+            while len(found) < 2 and i < 3000000:
+                p2 = b"chunk-%08d-" % i + b"x" * 20
+                i += 1
+                if zckref.H(cht, p2)[0] != 0:
+                    continue
+                if zckref.H(ht, p1 + p2)[0] != 0:
+                    continue
+                found.append(p2)
+            if len(found) == 2:
+                F = zckref.make_file([p1, found[0]], comp_type=0, hash_type=ht, chunk_hash_type=cht)
+                pF = zckref.parse(F)
+                a = pF.header_len + pF.chunks[2]["start"]
+                sub = F[:a] + found[1] + F[a + len(found[1]):]
+                for sizes in ([1], [4096], [7, 512]):
+                    out.append({"base": "nul-digest-h%d%d" % (ht, cht), "mut": "substitute-chunk-nul-prefixed-digests", "desc": [2], "data": core.b64(sub), "sizes": sizes,
+                                "zh": ctx["zh"], "orig": core.b64(p1 + found[0]), "unzck": ctx["unzck"]})
+                self.count("nul_digest_substitutions", 1)
         for b in bases:
             muts = [("identity", [], b["data"])] + raw_mutants(r, b, self.quick) + struct_mutants(r, b, self.quick)
             total = len(b["content"])
